@@ -58,7 +58,7 @@ def correspond(ctx):
     # the implementation at every level, on everything generated
     for c in cases:
         f = oracle(ctx, "K-ace-fixpoint", c.meta)
-        if f:
+        if f and not matches_known(ctx, "K-ace-fixpoint", c.meta, f):
             raise core.ImplViolation(dict(kind="input", kernel="K-ace-fixpoint", input=c.meta, failure=f))
     rnd = random.Random(ctx.seed + 77)
     nobj = 0
@@ -95,9 +95,16 @@ def _fix(cls, text, kw, native):
     except Exception as ex:  # noqa
         return f"rendered text {l1!r} of {cls.__name__}({text!r}) is rejected: {type(ex).__name__}: {ex}"
     l2 = o2.line
-    # one step, for every accepted spelling: the rendered text re-parses to itself with the same data
-    if l2 != l1 or _strip(o2.data()) != _strip(o1.data()):
-        return f"{cls.__name__}({text!r}, {kw}): re-parsing the rendered text {l1!r} gives {l2!r} / other data"
+    # one step for the text, for every accepted spelling: the rendered text re-parses to itself.  The data of
+    # the object built from the rendered text is what must be stable (a malformed source may carry fields that
+    # are not part of the rendered text, e.g. port tokens without tcp/udp: parsed, never rendered)
+    if l2 != l1:
+        return f"{cls.__name__}({text!r}, {kw}): re-parsing the rendered text {l1!r} gives {l2!r}"
+    if native and _strip(o2.data()) != _strip(o1.data()):
+        return f"{cls.__name__}({text!r}, {kw}): re-parsing the rendered text {l1!r} gives other data"
+    o3 = cls(l2, **kw)
+    if o3.line != l2 or _strip(o3.data()) != _strip(o2.data()):
+        return f"{cls.__name__}({text!r}, {kw}): text/data not stable from the first re-parse on: {l1!r} -> {o3.line!r}"
     return None
 
 
@@ -268,12 +275,37 @@ def known_lines(ctx):
             continue
         if f["id"] == "N1" and any(matches_known(ctx, "K-objects", i, w) for i, w in _n1_corpus(ca)):
             out.append(f"{f['id']}: {f['what']}")
+        elif f["id"] == "N14" and _n14(ca, "permit 16.132.4.7 any", {"platform": "ios"}) and \
+                _fix(ca.Ace, "permit 16.132.4.7 any", {"platform": "ios"}, False):
+            out.append(f"{f['id']}: {f['what']}")
         else:
             ctx.notes.append(f"known finding {f['id']} no longer reproduces")
     return out
 
 
+def _n14(ca, text, kw):
+    """N14: a standard-syntax entry 'permit A.B.C.D <tail>' (bare host address) whose tail begins like an address
+    ('any', 'host', a dotted address): accepted with the tail as option text, rendered 'permit host A.B.C.D <tail>',
+    which the extended pattern then claims and rejects"""
+    try:
+        o = ca.Ace(text, **kw)
+    except Exception:  # noqa
+        return False
+    opt = o.option.line.split()
+    return o.type == "standard" and bool(opt) and (opt[0] in ("any", "host", "object-group", "addrgroup")
+                                                    or opt[0][0].isdigit() and "." in opt[0])
+
+
 def matches_known(ctx, kernel, meta, failure):
+    ca = core.impl_module()
+    if "is rejected" in failure.get("what", "") and "text" in meta and meta.get("class", "Ace") == "Ace":
+        kw = meta.get("kw") or {k: meta[k] for k in ("platform", "version", "port_nr", "protocol_nr") if k in meta}
+        if _n14(ca, meta["text"], kw):
+            return "N14"
+    return _matches_n1(ctx, kernel, meta, failure)
+
+
+def _matches_n1(ctx, kernel, meta, failure):
     """N1: a zero-length prefix 'A.B.C.D/0' given to an IOS Address / ACE renders '0.0.0.0 255.255.255.255',
     which re-parses to 'any'.  Only that spelling on that platform."""
     import re
